@@ -58,6 +58,8 @@ func TestC12_Ramp(t *testing.T) {
 			R = rapid.SampledFrom([]time.Duration{20 * 365 * 24 * time.Hour, 5 * 365 * 24 * time.Hour, 24 * time.Hour}).Draw(t, "hugeRecovery")
 		case 1: // not a whole number of milliseconds
 			R = rapid.SampledFrom([]time.Duration{1500 * time.Microsecond, 2500 * time.Microsecond, 10*time.Millisecond + 300*time.Microsecond}).Draw(t, "fracRecovery")
+		case 2: // not a multiple of the check period, of 100 ms, of anything round
+			R = rapid.SampledFrom([]time.Duration{130 * time.Millisecond, 750 * time.Millisecond, 1250 * time.Millisecond, 3333 * time.Millisecond}).Draw(t, "oddRecoveryMs")
 		}
 		P := rapid.SampledFrom(cbh.MsGrid[0:5]).Draw(t, "checkPeriod")
 		phase := time.Duration(rapid.Int64Range(0, int64(time.Second)-1).Draw(t, "phase"))
@@ -693,5 +695,83 @@ func TestC12_Flood(t *testing.T) {
 			e += stepD
 		}
 		vstat.Case(fmt.Sprintf("flood|%v|%d|%d|%d", R, total, a, den), total >= 32768 && a > 0, []string{"flood-in-one-recovery"}, map[string]any{"recovery": R.String(), "requests": total, "passed": a, "refused": den})
+	})
+}
+
+// TestC12_RetripThenHeal: the first recovery's probe fails, the breaker trips again ("shields
+// the backend anew"), then the backend heals: the second recovery sees only successful probes,
+// must run its course and end in standby - the failure that caused the re-trip belongs to the
+// past (tripping clears the statistics, also when it happens out of the recovering state).
+func TestC12_RetripThenHeal(t *testing.T) {
+	rapid.Check(t, func(t *rapid.T) {
+		F := rapid.SampledFrom([]time.Duration{500 * time.Millisecond, time.Second, 2 * time.Second, 5 * time.Second}).Draw(t, "fallback")
+		R := rapid.SampledFrom([]time.Duration{500 * time.Millisecond, time.Second, 4 * time.Second}).Draw(t, "recovery")
+		thr := rapid.SampledFrom([]string{"0.2", "0.3", "0.4", "0.5"}).Draw(t, "threshold")
+		expr := rapid.SampledFrom([]string{"NetworkErrorRatio() > " + thr, "ResponseCodeRatio(500, 600, 0, 600) > " + thr}).Draw(t, "expr")
+		d := cbh.New(t, expr, F, R, time.Millisecond, time.Duration(rapid.Int64Range(0, int64(time.Second)-1).Draw(t, "phase")))
+		defer d.Close()
+		ms := func(x time.Duration) int64 { return int64(x / time.Millisecond) }
+		one := func(status int) bool {
+			if !d.Start() {
+				return false
+			}
+			d.Finish(len(d.InFlight)-1, status)
+			return true
+		}
+		for i := 0; i < 10 && d.State() != "tripped"; i++ {
+			one(502)
+			d.Advance(cbh.Step(2))
+		}
+		if d.State() != "tripped" {
+			t.Fatalf("INFRA: could not trip the breaker\n%s", d.History())
+		}
+		retrips := rapid.IntRange(1, 3).Draw(t, "failedRecoveries")
+		for k := 0; k < retrips; k++ {
+			d.Advance(cbh.Step(ms(F) + 1))
+			// requests trickle in; the first one the ramp lets through is the probe, and it fails
+			probed := false
+			for i := 0; i < 40 && !probed; i++ {
+				probed = one(502)
+				if !probed {
+					d.Advance(cbh.Step(ms(R)/20 + 1))
+				}
+			}
+			if !probed {
+				vstat.Count("retrip_not_reached", 1)
+				return
+			}
+			if st := d.State(); st != "tripped" {
+				// the check period had not elapsed at the probe's completion: one more completion decides
+				d.Advance(cbh.Step(2))
+				one(502)
+				if d.State() != "tripped" {
+					vstat.Count("retrip_not_reached", 1)
+					return
+				}
+			}
+		}
+		// healed: only successful probes from now on
+		d.Advance(cbh.Step(ms(F) + 1))
+		recStart := d.Now
+		n := rapid.IntRange(8, 40).Draw(t, "probes")
+		passed := 0
+		for i := 0; i < n && d.Now <= recStart+R; i++ {
+			if one(200) {
+				passed++
+			}
+			if st := d.State(); st == "tripped" {
+				t.Fatalf("after %d failed recoveries the backend healed; recovery began +%v and every re-admitted request succeeded, yet the breaker tripped again at +%v (%s)\n%s", retrips, recStart, d.Now, expr, d.History())
+			}
+			d.Advance(cbh.Step(ms(R)/int64(n) + 1))
+		}
+		if d.Now <= recStart+R {
+			d.Advance(recStart + R - d.Now + cbh.Step(1))
+		}
+		for i := 0; i < 5; i++ {
+			if !one(200) || d.State() != "standby" {
+				t.Fatalf("after a recovery with only successful probes (began +%v, lasts %v) request %d at +%v: state %s; want passed and standby\n%s", recStart, R, i, d.Now, d.State(), d.History())
+			}
+		}
+		vstat.Case(fmt.Sprintf("heal|%v|%v|%s|%d|%d", F, R, expr, retrips, n), passed > 0, []string{"retrip-then-heal"}, map[string]any{"fallback": F.String(), "recovery": R.String(), "expr": expr, "failed_recoveries": retrips})
 	})
 }
